@@ -124,6 +124,7 @@ type c15RCase struct {
 	FailKind int      `json:"failkind,omitempty"` // 0 plain error, 1 wraps io.EOF, 2 wraps io.ErrUnexpectedEOF, 4 / 5 as 0 / 2 with the data of the failing call
 	Skip     []int    `json:"skip,omitempty"`     // skippable frames (payload lengths) in front of the frame
 	OnlySkip bool     `json:"onlyskip,omitempty"` // the source holds the skippable frames only, no data frame
+	PrevEOF  bool     `json:"preveof,omitempty"`  // the same Reader has decoded an earlier stream whose source returned its last bytes together with io.EOF
 }
 
 func runC15RWith(c c15RCase, z, data []byte, rec *stat.Rec) *stat.Failure {
@@ -132,6 +133,18 @@ func runC15RWith(c c15RCase, z, data []byte, rec *stat.Rec) *stat.Failure {
 	rd := lz4.NewReader(src)
 	if err := rd.Apply(lz4.ConcurrencyOption(c.R.Conc)); err != nil {
 		return stat.Failf("C15/reader/apply-fails", "%v", err)
+	}
+	if c.PrevEOF {
+		// an earlier stream on the same Reader: whatever the object noted about how *that* source ended must be gone after Reset
+		rd.Reset(&inst.Source{Data: c15PrevFrame(), Chunks: []int{7, 4096}, EOFWith: true})
+		scratch := make([]byte, 1<<16)
+		for {
+			if _, e := rd.Read(scratch); e != nil {
+				break
+			}
+		}
+		rd.Reset(src)
+		rec.Class("reader/reused-after-a-source-that-ended-with-data+EOF")
 	}
 	var out []byte
 	var err error
@@ -201,8 +214,8 @@ func runC15RWith(c c15RCase, z, data []byte, rec *stat.Rec) *stat.Failure {
 	if err == nil {
 		return stat.Failf("C15/reader/source-failure-reported-as-clean-end-of-stream/"+conc, "%s: reader finished without error after %d of %d bytes", desc, len(out), len(data))
 	}
-	if !errors.Is(err, inst.ErrInjected) {
-		return stat.Failf("C15/reader/reported-error-is-not-the-source-error/"+conc+"/"+errClass(err), "%s: reader returned %v", desc, err)
+	if want := failWant(c.FailKind); !errors.Is(err, want) {
+		return stat.Failf("C15/reader/reported-error-is-not-the-source-error/"+conc+"/"+errClass(err), "%s: the source failed with %v, the reader returned %v", desc, want, err)
 	}
 	if !bytes.HasPrefix(data, out) {
 		return stat.Failf("C15/reader/delivered-bytes-not-a-prefix/"+conc, "%s: %d bytes delivered, first difference at %d", desc, len(out), firstDiff(out, data))
@@ -216,6 +229,21 @@ func runC15RWith(c c15RCase, z, data []byte, rec *stat.Rec) *stat.Failure {
 		rec.Class("reader/nontrivial")
 	}
 	return nil
+}
+
+var c15Prev []byte
+
+// c15PrevFrame: a small valid frame (no bytes after it) for the earlier life of a reused Reader.
+func c15PrevFrame() []byte {
+	if c15Prev == nil {
+		var sink inst.Sink
+		w := lz4.NewWriter(&sink)
+		_ = w.Apply(lz4.BlockSizeOption(lz4.Block64Kb))
+		_, _ = w.Write(opData(70000, 5))
+		_ = w.Close()
+		c15Prev = sink.Buf
+	}
+	return c15Prev
 }
 
 // c15Stream builds the compressed source of a reader-side case: skippable frames, then the frame (or nothing).
@@ -275,10 +303,7 @@ func runC15S(c c15SCase, rec *stat.Rec) *stat.Failure {
 		}
 		return nil
 	}
-	want := error(inst.ErrInjected)
-	if c.FailKind == 3 {
-		want = io.ErrUnexpectedEOF
-	}
+	want := failWant(c.FailKind)
 	rec.Class("readfrom-source/failed", fmt.Sprintf("readfrom-source/kind-%d", c.FailKind))
 	if !errors.Is(err, want) {
 		return stat.Failf(fmt.Sprintf("C15/readfrom/source-failure-not-returned/failkind=%d", c.FailKind), "%s, %d bytes, source chunks %v: the source failed at call %d with %v (with data: %v); ReadFrom returned (%d, %v), Close %v, %d bytes in the sink",
@@ -295,7 +320,7 @@ func TestC15ReadFromSource(t *testing.T) {
 	for _, conc := range []int{1, 2} {
 		for _, legacy := range []bool{false, true} {
 			for _, n := range []int{0, 100, 65536, 200000} {
-				for kind := 0; kind <= 5; kind++ {
+				for kind := 0; kind <= 9; kind++ {
 					for failAt := 1; failAt <= 6; failAt++ {
 						i++
 						if i%nshards != shard {
@@ -409,7 +434,7 @@ func safelyF(f func() *stat.Failure) (res *stat.Failure) {
 func TestC15Reader(t *testing.T) {
 	rec := stat.For("C15")
 	rec.SetRule(c15Rule)
-	rec.Require("reader/nontrivial", "reader/conc", "reader/seq", "reader/fault-free(fragmentation)", "reader/fault-free(data-with-EOF)", "reader/fault-free(150-empty-reads-in-a-row)", "reader/skippable-frames-only")
+	rec.Require("reader/nontrivial", "reader/conc", "reader/seq", "reader/fault-free(fragmentation)", "reader/fault-free(data-with-EOF)", "reader/fault-free(150-empty-reads-in-a-row)", "reader/skippable-frames-only", "reader/reused-after-a-source-that-ended-with-data+EOF")
 	n := pick(500, 8000)
 	n = (n + nshards - 1) / nshards
 	setRapid(n, "C15/reader")
@@ -457,6 +482,7 @@ func TestC15Reader(t *testing.T) {
 			// long stalls: 150 empty reads in a row before every chunk of data
 			{[]int{4096}, false, 150}, {nil, true, 150}} {
 			cc.R.Src, cc.R.EOFWith, cc.R.ZeroBurst = fr.src, fr.eof, fr.burst
+			cc.PrevEOF = fr.burst == 0 && len(fr.src)%2 == 1
 			judge(rt, "C15", "C15/reader", cc, safelyF(func() *stat.Failure { return runC15RWith(cc, z, data, rec) }))
 			if fr.eof {
 				rec.Class("reader/fault-free(data-with-EOF)")
@@ -467,15 +493,20 @@ func TestC15Reader(t *testing.T) {
 		}
 		ks := faultIndices(probe.Calls, 300, rt)
 		for _, k := range ks {
-			for v := 0; v < 4; v++ {
+			for v := 0; v < 5; v++ {
 				cc := c
 				cc.FailAt, cc.Sticky = k, v == 1
+				cc.PrevEOF = (k+v)%4 == 0
 				if v == 2 {
 					cc.FailKind = 1 + k%2 // an injected error that wraps io.EOF / io.ErrUnexpectedEOF
 				}
 				if v == 3 {
 					cc.FailKind = 4 + k%2 // the failing call returns its data together with the error
 					cc.Sticky = k%3 == 0
+				}
+				if v == 4 {
+					cc.FailKind = 6 + k%4 // a sentinel error of the standard library, as a real source returns it
+					cc.Sticky = k%2 == 0
 				}
 				journal("C15", "C15/reader", cc)
 				judge(rt, "C15", "C15/reader", cc, safelyF(func() *stat.Failure { return runC15RWith(cc, z, data, rec) }))
